@@ -15,22 +15,32 @@ def clsOf (s : String) : Cls :=
   | "survey" => .survey | "group" => .group | "repeat" => .repeat
   | "question" => .question | "option" => .option | _ => .other
 
+def optOfWire (j : Json) : Except String Opt := do
+  pure (← dictOfWire (← j.getObjVal? "slots"), ← dictOfWire (← j.getObjVal? "extra"))
+
+def strPairs (j : Json) : Except String (List (Str × Str)) := do
+  (← j.getArr?).toList.mapM fun p => do
+    match p with
+    | .arr #[.str k, .str v] => pure (k.toList, v.toList)
+    | _ => throw "string pair expected"
+
 partial def elOfWire (j : Json) : Except String El := do
   let cls := clsOf (← (← j.getObjVal? "cls").getStr?)
   let slots ← dictOfWire (← j.getObjVal? "slots")
   let qk ← (← (← j.getObjVal? "qtd").getArr?).toList.mapM fun x => do pure (← x.getStr?).toList
   let kw ← dictOfWire (← j.getObjVal? "kw")
+  let scalars ← strPairs (← j.getObjVal? "scalars")
   let kids ← (← (← j.getObjVal? "kids").getArr?).toList.mapM elOfWire
   let opts ← match j.getObjVal? "opts" with
-    | .ok (.arr a) => do pure (some (← a.toList.mapM dictOfWire))
+    | .ok (.arr a) => do pure (some (← a.toList.mapM optOfWire))
     | _ => pure none
   let choices ← match j.getObjVal? "choices" with
     | .ok (.arr a) => a.toList.mapM fun p => do
         match p with
-        | .arr #[.str ln, .arr os] => do pure (ln.toList, ← os.toList.mapM dictOfWire)
+        | .arr #[.str ln, .arr os] => do pure (ln.toList, ← os.toList.mapM optOfWire)
         | _ => throw "choices entry expected"
     | _ => pure []
-  pure (.mk cls slots qk kw kids opts choices)
+  pure (.mk cls slots qk kw scalars kids opts choices)
 
 def opsToJson (op : String) (j : Json) : Option (Except String Json) :=
   match op with
@@ -44,6 +54,12 @@ def opsToJson (op : String) (j : Json) : Option (Except String Json) :=
       let d1 := ownDump del slots
       let d2 := ownDump del (reloadSlots (slots.map Prod.fst) d1)
       pure (Json.mkObj [("d1", toWire (.obj d1)), ("d2", toWire (.obj d2))])
+  | "tojson.option_reload" => some do
+      -- an option: dump, reload, dump again
+      let o ← optOfWire (← j.getObjVal? "opt")
+      let d1 := optionDump o
+      let o2 := reloadOption (o.1.map Prod.fst) d1
+      pure (Json.mkObj [("d1", toWire (.obj d1)), ("extra2", toWire (.obj o2.2)), ("d2", toWire (.obj (optionDump o2)))])
   | _ => none
 
 end Pyxv.ToJson
